@@ -234,6 +234,37 @@ def branch_edges(fn, rx, val):
     return out
 
 
+def bool_switches_on(fn, rx):
+    """Live two-way switches on a bool whose discriminant (or one of its reaching definitions, looking
+    through short-circuit temporaries) matches rx: [(block, true successor, false successor)]."""
+    out = []
+    for a in sorted(fn.cfg.live):
+        succ = fn.cfg.succ[a]
+        if len({s for s, _ in succ}) != 2:
+            continue
+        t = fn.blocks[a]["t"]
+        if t["k"] != "switch":
+            continue
+        trees = [fn.flow.switch_tree(a)] + [tr for _, tr in fn.flow.switch_alternatives(a)]
+        if not any(re.search(rx, show(strip(x))) for x in trees):
+            continue
+        ts = fs = None
+        for s, lab in succ:
+            if lab in (("else", (0,)), ("v", 1)):
+                ts = s
+            elif lab == ("v", 0):
+                fs = s
+        if ts is not None and fs is not None:
+            # account for a negated discriminant
+            neg = False
+            x = strip(fn.flow.switch_tree(a))
+            while x and x[0] == "un" and x[1] == "Not":
+                neg = not neg
+                x = strip(x[2])
+            out.append((a, fs, ts) if neg else (a, ts, fs))
+    return out
+
+
 def closure_parent(F, fn):
     p = fn.meta.get("parent")
     return F.fns.get(p) if p else None
